@@ -2,6 +2,13 @@
 PENDING_REASON = "static rules designed in DESIGN.md §3 but the check is not registered yet (under construction)"
 
 CLAIMS = {
+    "C11": {
+        "technique": "static analysis: taint from raw episode storage to ranked lists with the owner filter as sanitiser across four sibling search_tiered implementations (incl. the LanceDB backend that cannot run offline), guard facts and must-pass checks for threshold / k / dedupe, must-pass of the total-key sort before the rerank layers, provenance of every list the rerank layers assign, residual-loop source and cap checks",
+        "text": "Decides: every ranked list in InMemoryIndex, its shard view, LanceIndex and its shard view derives only from owner-filtered records and t2_semantic passes owner_for_query(ctx,cfg) (agent -> ctx.agent_id) on every path, including the embed-store reader path; the similarity test dominates every scored append; "
+                "ranked lists are cut to k and the tier walk tests k_retrieval around each append; the seen-id test dominates and is paired with each append; recency only on the exact tier, cluster pool = top clusters_top_m; the list handed to the rerank layers is on every path the projection of a list sorted by (-combined, id) with the three t2.ranking weights; "
+                "rerank layers only assign lists looked up in an id->ref map of their input (or the hybrid reranker's reordered copy) and construct no episodes; residual nudges iterate the slice-capped hits, use the label map of existing nodes, de-duplicate and test the residual cap after every choice.",
+        "note": "Not decided: that the rerank layers return a bijection of their input (drops/duplicates are value-level), numeric correctness of cosine/combined scores, zero vectors, tie behaviour of float scores.",
+    },
     "C09": {
         "technique": "static analysis: taint of completion-order positions into sort keys / merge order, sort-key shape and stable-sort reasoning, dominance of the error raise over the merge, call-site conformance, sibling cross-check by extracted field->operator maps and per-tier hint tables, effect analysis of submitted thunks",
         "text": "Decides: run_parallel hands merge_fn a list ordered by (order_key(key), submit index) (pool) or a stable order_key sort of a submit-ordered list (one worker), no enumerate(as_completed) position reaches a key, result or error order, "
